@@ -67,13 +67,7 @@ struct screen_stepper : stepper
     {
         reader r(parts[i++]);
         std::string op = r.word();
-        if (op == "cv") { long w = r.num(), h = r.num(); cvs = canvas({(coordinate_type)w, (coordinate_type)h}); }
-        else if (op == "px") {
-            long x = r.num(), y = r.num();
-            element e = read_element(r);
-            if (x >= 0 && y >= 0 && x < cvs.size().width_ && y < cvs.size().height_) cvs[(coordinate_type)x][(coordinate_type)y] = e;
-        }
-        else if (op == "rz") { long w = r.num(), h = r.num(); cvs.resize({(coordinate_type)w, (coordinate_type)h}); }
+        if (screen_edit_op(op, r, cvs)) {}
         else if (op == "tsz") { long w = r.num(), h = r.num(); t->set_size({(coordinate_type)w, (coordinate_type)h}); }
         else if (op == "dr") {
             ch.out.clear();
